@@ -13,6 +13,7 @@ from puresnmp.pdu import PDU
 from puresnmp.plugins.mpm import AbstractEncodingResult, MessageProcessingModel
 from puresnmp.plugins.security import SecurityModel
 from puresnmp.plugins.security import create as create_sm
+from puresnmp.util import validate_ber_structure
 
 IDENTIFIER = 0
 
@@ -74,6 +75,7 @@ class V1MPM(MessageProcessingModel[V1EncodingResult, TV1SecModel]):
         if self.security_model is None:
             self.security_model = create_sm(security_model_id)
 
+        validate_ber_structure(whole_msg)
         decoded, _ = decode(whole_msg, enforce_type=Sequence)
         _, _, pdu = decoded
 
